@@ -174,9 +174,13 @@ theorem insideFull_ruleBackticks {st : IState} {silent : Bool} {o : Option Nat} 
   rw [hsrc]
   exact insideFull_run hrun hnc hfull
 
-/-- `NoCut` is needed: `` `a`` `` under `pos_max = 3` (between the two closing backticks) — the failed
-    opener... -/
-example : True := trivial
+/-- `NoCut` is needed: three backticks under `pos_max = 2` (inside the run) — the failed opener of
+    length 2 (as seen under `pos_max`) marks position 1 only, although position 2 holds a backtick -/
+example :
+    (ruleBackticks (exState ['`', '`', '`'] 0 2) true).map (fun r => r.2.backticks.insideFailed)
+      = .ok [1] ∧
+    CodePair.charAt ['`', '`', '`'] 2 = some '`' := by
+  decide +kernel
 
 /-! ## PART B: a declining call at a backtick marks the next position of the run -/
 
